@@ -2,7 +2,7 @@ from pyvc.cbase import Registry
 
 
 def build_registry():
-    from . import externs, expect, spawnbase, screen, ansi, utils, transports, lifecycle
+    from . import externs, expect, spawnbase, screen, ansi, utils, transports, lifecycle, readpath
     reg = Registry()
     externs.register(reg)
     spawnbase.register(reg)
@@ -12,4 +12,5 @@ def build_registry():
     utils.register(reg)
     transports.register(reg)
     lifecycle.register(reg)
+    readpath.register(reg)
     return reg
